@@ -91,11 +91,11 @@ PROPS = {
         'pairs (all AND written / some AND nodes juxtaposed) of printed random trees, and pairs over arbitrary token sequences with two adjacent terminals; non-trivial = pair accepted',
         '', []),
     'C08': P(
-        ['C08_quoted_value_is_one_token', 'C08_quoted_value_tree', 'C08_quoted_value_inline_sql', 'C08_quoted_value_parameter', 'C08_sql_constant_decodes_to_the_value', 'C08_escaped_value_is_one_token', 'C08_escaped_value_tree', 'C08_escaped_spelling_loses_only_its_backslashes', 'C08_escaped_spelling_adds_no_wildcard', 'C08_quoted_value_reaches_postgres_verbatim', 'C08_escaped_value_reaches_postgres_verbatim', 'C08_value_travels_as_parameter_verbatim', 'C08_quoted_text_to_rows', 'C08_quoted_text_to_parameter', 'C08_escaped_text_to_rows', 'C08_escaped_value_is_one_token_any_script', 'C08_escaped_spelling_any_script_loses_only_its_backslashes', 'C08_escaped_spelling_any_script_adds_no_wildcard', 'C08_escaped_spelling_any_script_is_the_ascii_one_on_ascii', 'C08_escaped_text_to_rows_any_script', 'C08_escaped_text_to_parameter_any_script'],
+        ['C08_quoted_value_is_one_token', 'C08_quoted_value_tree', 'C08_quoted_value_inline_sql', 'C08_quoted_value_parameter', 'C08_sql_constant_decodes_to_the_value', 'C08_escaped_value_is_one_token', 'C08_escaped_value_tree', 'C08_escaped_spelling_loses_only_its_backslashes', 'C08_escaped_spelling_adds_no_wildcard', 'C08_quoted_value_reaches_postgres_verbatim', 'C08_escaped_value_reaches_postgres_verbatim', 'C08_value_travels_as_parameter_verbatim', 'C08_quoted_text_to_rows', 'C08_quoted_text_to_parameter', 'C08_escaped_text_to_rows', 'C08_escaped_value_is_one_token_any_script', 'C08_escaped_spelling_any_script_loses_only_its_backslashes', 'C08_escaped_spelling_any_script_adds_no_wildcard', 'C08_escaped_spelling_any_script_is_the_ascii_one_on_ascii', 'C08_escaped_text_to_rows_any_script', 'C08_escaped_text_to_parameter_any_script', 'C08_escaped_bare_word_is_the_plain_value_any_script'],
         [('corpus', 0), ('quote', 6000), ('scale-values', 0)],
         [('corpus', 0), ('quote', 100000), ('scale-values', 0)],
         PARSE + SQL,
-        'quoting clause proved link by link for all texts w without a double quote: bytes -> tokens (lexer), tokens -> tree (parser loop + Validate: EQUALS(column, literal w)), tree -> inline SQL text (column = constant with doubled quotes) and -> parameter list ([w]), SQL constant -> value (PostgreSQL scanner model reads it back as w). The links are closed into end-to-end theorems with one quoting function on both sides: from the tokens, and from the query TEXT f:"w" handed to ToPostgres / ToParameterizedPostgres (lexer, parser, Validate, renderer, PostgreSQL scanner and grammar models), the comparison of column f with the constant w - resp. with parameter 1 bound to w - arrives and is true on exactly the rows of the query, for every byte string w without a double quote. Escaping clause, ASCII: the same end to end from the text f:esc(w); the escaped spelling (a backslash before every byte that is not a letter, digit or underscore) of any text is one Literal token carrying exactly those bytes; a Literal token whose text loses its backslashes to w, holds no star or question mark and does not read as a number gives EQUALS(column, literal w), w plain; the escaped spelling of a w without backslash, star and question mark meets those premises (with them it is known finding K7). Escaping clause, ANY script and any bytes (valid UTF-8 or not): the rune-level escaped spelling (a backslash before every rune, as the Go decoder cuts the text, that is not a letter, digit or underscore; an invalid byte is a rune of its own) is one Literal token carrying exactly those bytes, loses exactly its backslashes, adds no wildcard, coincides with the byte-level spelling on ASCII, and from the query text f:esc(w) ToPostgres delivers w verbatim as the string constant and ToParameterizedPostgres as the only parameter (oracle fact added: U+FFFD is no letter or digit). Texts that read as numbers, and texts holding a backslash, star or question mark (K7), are decided by C08_check per case.',
+        'quoting clause proved link by link for all texts w without a double quote: bytes -> tokens (lexer), tokens -> tree (parser loop + Validate: EQUALS(column, literal w)), tree -> inline SQL text (column = constant with doubled quotes) and -> parameter list ([w]), SQL constant -> value (PostgreSQL scanner model reads it back as w). The links are closed into end-to-end theorems with one quoting function on both sides: from the tokens, and from the query TEXT f:"w" handed to ToPostgres / ToParameterizedPostgres (lexer, parser, Validate, renderer, PostgreSQL scanner and grammar models), the comparison of column f with the constant w - resp. with parameter 1 bound to w - arrives and is true on exactly the rows of the query, for every byte string w without a double quote. Escaping clause, ASCII: the same end to end from the text f:esc(w); the escaped spelling (a backslash before every byte that is not a letter, digit or underscore) of any text is one Literal token carrying exactly those bytes; a Literal token whose text loses its backslashes to w, holds no star or question mark and does not read as a number gives EQUALS(column, literal w), w plain; the escaped spelling of a w without backslash, star and question mark meets those premises (with them it is known finding K7). Escaping clause, ANY script and any bytes (valid UTF-8 or not): the rune-level escaped spelling (a backslash before every rune, as the Go decoder cuts the text, that is not a letter, digit or underscore; an invalid byte is a rune of its own) is one Literal token carrying exactly those bytes, loses exactly its backslashes, adds no wildcard, coincides with the byte-level spelling on ASCII, and from the query text f:esc(w) ToPostgres delivers w verbatim as the string constant and ToParameterizedPostgres as the only parameter, and Parse of the bare word esc(w) alone is the plain string leaf w (oracle fact added: U+FFFD is no letter or digit). Texts that read as numbers, and texts holding a backslash, star or question mark (K7), are decided by C08_check per case.',
         'random texts over an alphabet of operators, keywords, digits, wildcards, slashes, backslashes, whitespace, quotes, non-ASCII; quoted and escaped spellings; on every escaped case the generator spelling is compared with the extracted Spec/Escape.esc (the function of the any-script theorems) under the oracle classes',
         '', ['oracle facts: double quote, colon and the four whitespace runes are not letters or digits']),
     'C09': P(
